@@ -590,7 +590,32 @@ def r19_13(ctx: Ctx) -> None:
         ctx.check(ok, "R19.13", f, last, f"{name} ends with status 0", f"Cli.{name} does not end in `return 0` after the session(s): a successful `{name[4]}` reports failure", construct=f"{name} final status")
 
 
+def r19_14(ctx: Ctx) -> None:
+    """the exit status of a command is the status of the runner that did the work: a method of Cli that returns a non-zero status on some
+    path is never called for its side effects only - its value is returned (or kept in a name that is).  `l name.001` on a volume set that
+    is no archive would otherwise print 'not a 7z file' and exit 0 while `l name.7z` exits 1."""
+    cls = ctx.prog.module("cli").classes.get("Cli")
+    ctx.need(cls is not None, "class Cli not found")
+
+    def reports_failure(m) -> bool:
+        return any(isinstance(r, ast.Return) and r.value is not None and not (isinstance(r.value, ast.Constant) and r.value.value in (0, None))
+                   for r in walk(m.node))
+    status = {name for name, m in cls.methods.items() if reports_failure(m)}
+    n = 0
+    for name, m in sorted(cls.methods.items()):
+        for c in q.calls(m):
+            if isinstance(c.func, ast.Attribute) and isinstance(c.func.value, ast.Name) and c.func.value.id == "self" and c.func.attr in status:
+                n += 1
+                dropped = any(isinstance(st, ast.Expr) and st.value is c for st in walk(m.node))
+                ctx.check(not dropped, "R19.14", m, c, f"{name}: the status of self.{c.func.attr}() is handed on",
+                          f"`{norm(c)[:80]}` is called for its side effects and its status is dropped: the command prints the failure (e.g. 'not a 7z file') and still exits 0 on this arm, "
+                          "while the sibling arm returns the runner's status", construct=f"{name} drops the status of {c.func.attr}")
+    ctx.floor("R19.14", n, 2, "calls of status-returning runners inside Cli")
+
+
 def run(ctx: Ctx) -> None:
+    r19_14(ctx)
+    c04.r04_17(ctx, rule="R19.15")  # `x` does not exit 0 over a damaged member: the CRC comparison asks `is not None`, not truth (a stored CRC of 0 is a CRC)
     r19_13(ctx)
     r19_12(ctx)
     r19_11(ctx)
